@@ -131,7 +131,7 @@ impl Engine for HrEngine {
             }
             // ---------------------------------------------------------------- C10: non-reloadable things
             1 => {
-                let mode = *rng.pick(&["hot", "hot", "nohot-ctor", "nohot-src"]);
+                let mode = *rng.pick(&["hot", "hot", "nohot-ctor", "nohot-src", "nohot-cfgfail"]);
                 // C10 quantifies over all constructors: a quarter of the cases run on a LocalAssetCache (never has a reloader)
                 let fe = if rng.chance(1, 4) { *rng.pick(&["local", "localany"]) } else { fe };
                 l.push(format!("cfg {fe} {mode}"));
